@@ -21,16 +21,17 @@ def Unshareable (O : Nat → Resp) (e : Nat) (a : Entry) : Prop :=
 
 /-- `s'` differs from `s` in fields that do not matter for sharing, and key flags moved only in the allowed direction -/
 structure Keys (s s' : State) : Prop where
+  relFirst : s'.relFirst = s.relFirst
   clients : s'.clients = s.clients
   none : ∀ e, s.entries e = none → s'.entries e = none
   some : ∀ e a, s.entries e = some a → ∃ b, s'.entries e = some b ∧ b.hdr = a.hdr ∧ b.isErr = a.isErr ∧ b.relAtHdr = a.relAtHdr ∧
     (Good a → Good b) ∧ (Locked3 a → Locked3 b)
 
 theorem Keys.refl (s : State) : Keys s s :=
-  ⟨rfl, fun _ h => h, fun _ a h => ⟨a, h, rfl, rfl, rfl, id, id⟩⟩
+  ⟨rfl, rfl, fun _ h => h, fun _ a h => ⟨a, h, rfl, rfl, rfl, id, id⟩⟩
 
 theorem Keys.trans {a b c : State} (h1 : Keys a b) (h2 : Keys b c) : Keys a c := by
-  refine ⟨h2.clients.trans h1.clients, fun e h => h2.none e (h1.none e h), ?_⟩
+  refine ⟨h2.relFirst.trans h1.relFirst, h2.clients.trans h1.clients, fun e h => h2.none e (h1.none e h), ?_⟩
   intro e x hx
   obtain ⟨y, hy, p1, p2, p3, p4, p5⟩ := h1.some e x hx
   obtain ⟨z, hz, q1, q2, q3, q4, q5⟩ := h2.some e y hy
@@ -40,7 +41,7 @@ theorem Keys.trans {a b c : State} (h1 : Keys a b) (h2 : Keys b c) : Keys a c :=
 theorem keys_setE (s : State) (e : Nat) (a b : Entry) (p : Option Nat) (he : s.entries e = some a) (h1 : b.hdr = a.hdr)
     (h2 : b.isErr = a.isErr) (h3 : b.relAtHdr = a.relAtHdr) (h4 : Good a → Good b) (h5 : Locked3 a → Locked3 b) :
     Keys s { setE s e b with pub := p } := by
-  refine ⟨rfl, ?_, ?_⟩
+  refine ⟨rfl, rfl, ?_, ?_⟩
   · intro x hx
     by_cases hxe : x = e
     · subst hxe; rw [he] at hx; cases hx
@@ -241,6 +242,8 @@ structure ShareInv (O : Nat → Resp) (s : State) : Prop where
   unsh : ∀ e a, s.entries e = some a → Unshareable O e a → Locked3 a
   hit : ∀ c cl, s.clients c = some cl → cl.isHit = true → cl.gotHdr ≠ none → ∀ a, s.entries cl.entry = some a → ¬ Unshareable O cl.entry a
   fresh : ∀ e, s.nextE ≤ e → s.entries e = none
+  /-- in the source variant that looks at the reply first, the release shortcut is never taken -/
+  flag : s.relFirst = false → ∀ e a, s.entries e = some a → a.relAtHdr = false
 
 theorem unshareable_fields {O : Nat → Resp} {e : Nat} {a b : Entry} (h1 : b.hdr = a.hdr) (h2 : b.isErr = a.isErr)
     (h3 : b.relAtHdr = a.relAtHdr) : Unshareable O e b ↔ Unshareable O e a := by
@@ -272,6 +275,10 @@ theorem shareInv_keys {O : Nat → Resp} {s s' : State} (k : Keys s s') (hn : s'
   · intro e he
     rw [hn] at he
     exact k.none e (h.fresh e he)
+  · intro hf e b hb
+    obtain ⟨a, ha, _, _, p3, _, _⟩ := back e b hb
+    rw [p3]
+    exact h.flag (by rw [← k.relFirst]; exact hf) e a ha
 
 theorem frame_nextE_find (s : State) : (find s).1.nextE = s.nextE := (frame_find s).nextE
 
@@ -279,7 +286,7 @@ theorem frame_nextE_find (s : State) : (find s).1.nextE = s.nextE := (frame_find
 theorem shareInv_setC {O : Nat → Resp} {s : State} (h : ShareInv O s) (c : Nat) (cl : Client)
     (hc : cl.isHit = true → cl.gotHdr ≠ none → ∀ a, s.entries cl.entry = some a → ¬ Unshareable O cl.entry a) :
     ShareInv O (setC s c cl) := by
-  refine ⟨h.good, h.unsh, ?_, h.fresh⟩
+  refine ⟨h.good, h.unsh, ?_, h.fresh, h.flag⟩
   intro x y hy
   by_cases hx : x = c
   · subst hx; simp at hy; subst hy; exact hc
@@ -315,6 +322,10 @@ theorem shareInv_newEntry {O : Nat → Resp} {s : State} (h : ShareInv O s) :
     have : e ≠ s.nextE := by omega
     simp [this]
     exact h.fresh e (by omega)
+  · intro hf e a ha
+    by_cases hx : e = s.nextE
+    · subst hx; simp at ha; subst ha; rfl
+    · simp [hx] at ha; exact h.flag hf e a ha
 
 theorem shareInv_allowCollapsing {O : Nat → Resp} {s : State} (h : ShareInv O s) (e : Nat) : ShareInv O (allowCollapsing s e) := by
   unfold allowCollapsing
@@ -346,7 +357,7 @@ theorem shareInv_startFetch {O : Nat → Resp} {s : State} (h : ShareInv O s) (c
   cases hh
 
 theorem shareInv_nextC {O : Nat → Resp} {s : State} (h : ShareInv O s) (n : Nat) : ShareInv O { s with nextC := n } :=
-  ⟨h.good, h.unsh, h.hit, h.fresh⟩
+  ⟨h.good, h.unsh, h.hit, h.fresh, h.flag⟩
 
 theorem shareInv_request {O : Nat → Resp} {s : State} (h : ShareInv O s) (nc : Bool) : ShareInv O (request s nc) := by
   unfold request
@@ -388,22 +399,25 @@ theorem shareInv_replyHeaders {O : Nat → Resp} {s : State} (hi : Inv O s) (h :
       split
       · exact hI1
       · rename_i a1 he1
-        have k2 : Keys s1 (applyReuse s1 e (if a1.relReq = true then Reuse.doNotCacheButShare else (O e).hdr.reuse)) := keys_applyReuse s1 e _
-        have f2 : Frame s1 (applyReuse s1 e (if a1.relReq = true then Reuse.doNotCacheButShare else (O e).hdr.reuse)) :=
+        have k2 : Keys s1 (applyReuse s1 e (reuseAnswer s.relFirst a1.relReq (O e).hdr.reuse)) := keys_applyReuse s1 e _
+        have f2 : Frame s1 (applyReuse s1 e (reuseAnswer s.relFirst a1.relReq (O e).hdr.reuse)) :=
           frame_applyReuse s1 e _
         -- a reply that is `reuseNot`, on an entry not yet released, leaves the entry locked
-        have hl : (O e).hdr.reuse = .reuseNot → a1.relReq = false →
-            ∀ b, (applyReuse s1 e (if a1.relReq = true then Reuse.doNotCacheButShare else (O e).hdr.reuse)).entries e = some b → Locked3 b := by
+        have hl : (O e).hdr.reuse = .reuseNot → (s.relFirst && a1.relReq) = false →
+            ∀ b, (applyReuse s1 e (reuseAnswer s.relFirst a1.relReq (O e).hdr.reuse)).entries e = some b → Locked3 b := by
           intro hr hrel b hb
-          rw [hrel, hr] at hb
-          simp only [Bool.false_eq_true, if_false] at hb
+          have hra : reuseAnswer s.relFirst a1.relReq (O e).hdr.reuse = .reuseNot := by
+            unfold reuseAnswer
+            rw [hr]
+            cases hf : s.relFirst <;> cases hq : a1.relReq <;> simp [hf, hq] at hrel ⊢
+          rw [hra] at hb
           unfold applyReuse at hb
           dsimp only at hb
           obtain ⟨b', hb', hl'⟩ := releaseRequest_false_locks s1 e a1 he1 (hI1.good e a1 he1)
           rw [hb] at hb'
           cases hb'
           exact hl'
-        generalize applyReuse s1 e (if a1.relReq = true then Reuse.doNotCacheButShare else (O e).hdr.reuse) = s2 at k2 f2 hl ⊢
+        generalize applyReuse s1 e (reuseAnswer s.relFirst a1.relReq (O e).hdr.reuse) = s2 at k2 f2 hl ⊢
         have hI2 : ShareInv O s2 := shareInv_keys k2 f2.nextE hI1
         have hInv2 : Inv O s2 := inv_frame (f1.trans f2) hi
         split
@@ -457,6 +471,14 @@ theorem shareInv_replyHeaders {O : Nat → Resp} {s : State} (hi : Inv O s) (h :
               cases this
             simp [this]
             exact hI2.fresh x hx'
+          · intro hf x y hy
+            have hf2 : s2.relFirst = false := hf
+            have hf' : s.relFirst = false := by rw [← f1.relFirst, ← f2.relFirst]; exact hf2
+            by_cases hx : x = e
+            · subst hx; simp at hy; subst hy
+              simp [hf']
+            · simp [hx] at hy
+              exact hI2.flag hf2 x y hy
 
 theorem shareInv_replyData {O : Nat → Resp} {s : State} (h : ShareInv O s) (e k : Nat) : ShareInv O (replyData O s e k) := by
   unfold replyData
@@ -583,6 +605,23 @@ theorem shareInv_replyError {O : Nat → Resp} {s : State} (hi : Inv O s) (h : S
         apply kk.none
         simp [hne]
         exact h.fresh x hx'
+      · intro hf x y hy
+        have hf' : s.relFirst = false := by
+          have := kk.relFirst
+          rw [this] at hf
+          exact hf
+        by_cases hx : x = e
+        · subst hx
+          rw [hb] at hy
+          cases hy
+          obtain ⟨b', hb', _, _, p3, _, _⟩ := kk.some x b0 he0
+          rw [hb] at hb'
+          cases hb'
+          rw [p3, ← hb0]
+          exact h.flag hf' x a he
+        · obtain ⟨z, hz, _, _, p3, _, _⟩ := back x y hy hx
+          rw [p3]
+          exact h.flag hf' x z hz
 
 theorem shareInv_finish {O : Nat → Resp} {s : State} (h : ShareInv O s) (c : Nat) (cl : Client) (v : Verdict)
     (hc : s.clients c = some cl) : ShareInv O (finish s c cl v) :=
@@ -667,12 +706,13 @@ theorem shareInv_purge {O : Nat → Resp} {s : State} (h : ShareInv O s) : Share
   · exact h
   · exact shareInv_keys (keys_release s _ true) (frame_release s _ true).nextE h
 
-theorem shareInv_init (O : Nat → Resp) (cf : Bool) : ShareInv O (State.init cf) := by
+theorem shareInv_init (O : Nat → Resp) (cf rf : Bool) : ShareInv O (State.init cf rf) := by
   constructor
   · intro e a ha; cases ha
   · intro e a ha; cases ha
   · intro c cl hc; cases hc
   · intro e _; rfl
+  · intro _ e a ha; cases ha
 
 theorem shareInv_step {O : Nat → Resp} {s : State} (hi : Inv O s) (h : ShareInv O s) (a : Action) : ShareInv O (step O s a) := by
   cases a with
